@@ -225,7 +225,12 @@ var verdictMemo = map[string]struct {
 }{}
 
 func modelVerify(t triple, vs variantSpec, zip bool) (bool, ref.Cause) {
-	k := fmt.Sprintf("%x|%x|%x|%d|%s|%v", t.key, t.msg, t.sig, vs.v, vs.ctx, zip)
+	mk := t.msg
+	if len(mk) > 256 {
+		d := sha512.Sum512(mk) // long messages enter the memo key through a digest
+		mk = append([]byte("#"), d[:]...)
+	}
+	k := fmt.Sprintf("%x|%x|%x|%d|%s|%v", t.key, mk, t.sig, vs.v, vs.ctx, zip)
 	if m, ok := verdictMemo[k]; ok {
 		return m.ok, m.c
 	}
@@ -453,8 +458,19 @@ func fillers(vs variantSpec, n int) []triple {
 }
 
 // batchWith places t at position pos of a batch of size n filled with honest triples.
+// shortFillers: the neighbours of the entry under test carry one-byte messages (set by families that
+// vary the message length: a neighbour of a length that the same defect gets wrong would send the chunk
+// to the fallback and hide the entry under test).
+var shortFillers bool
+
 func batchWith(t triple, pos, n int, vs variantSpec) []triple {
 	f := fillers(vs, n)
+	if shortFillers && vs.v != ref.Ph {
+		f = make([]triple, n)
+		for i := range f {
+			f[i] = honestTriple(5100+i%16, []byte{byte(i)}, vs)
+		}
+	}
 	out := make([]triple, n)
 	copy(out, f)
 	out[pos] = t
@@ -498,4 +514,11 @@ func ownResult(valid []bool) []bool {
 		full[i] = false
 	}
 	return out
+}
+
+func minI(a, b int) int {
+	if a < b {
+		return a
+	}
+	return b
 }
